@@ -815,10 +815,20 @@ func (f *frame) execInstr(instr ssa.Instruction, pc *Term, st State) {
 		f.define(x, f.makeInterface(f.get(x.X), x.Type()))
 	case *ssa.ChangeInterface:
 		v := f.get(x.X)
+		if _, isTP := x.X.Type().(*types.TypeParam); isTP && v.T != nil && v.T.Sort != c.sortOf(x.Type()) {
+			// a value of type-parameter type converted to an interface (generic
+			// code, uninstantiated): boxed like any concrete value
+			f.define(x, f.makeInterface(v, x.Type()))
+			break
+		}
 		v.Typ = x.Type()
 		f.vals[x] = v
 	case *ssa.ChangeType:
 		v := f.get(x.X)
+		if _, isTP := x.X.Type().(*types.TypeParam); isTP && v.T != nil && v.T.Sort != c.sortOf(x.Type()) {
+			f.define(x, f.makeInterface(v, x.Type()))
+			break
+		}
 		v.Typ = x.Type()
 		f.vals[x] = v
 	case *ssa.Convert:
@@ -1142,7 +1152,7 @@ func (f *frame) typeAssert(x *ssa.TypeAssert, pc *Term, st State) {
 	c := f.c
 	v := f.get(x.X)
 	at := x.AssertedType
-	if types.IsInterface(at) {
+	if _, isTP := at.(*types.TypeParam); !isTP && types.IsInterface(at) {
 		// interface-to-interface: success unknown
 		ok := c.fresh("ta_ok", BoolSort)
 		res := Val{T: v.T, Typ: at}
